@@ -4,7 +4,7 @@ set -e
 cd "$(dirname "$0")"
 export GOFLAGS=-mod=mod GOPROXY=off
 mkdir -p .work/bin evidence replays
-cp /repo/go.sum harness/go.sum 2>/dev/null || true
+cmp -s /repo/go.sum harness/go.sum || { cp /repo/go.sum harness/go.sum.tmp && mv harness/go.sum.tmp harness/go.sum; }
 python3 bin/gen_dispatch.py
 if [ -f bin/extract.py ]; then python3 bin/extract.py all || echo "setup: extractor reported a problem (checks will report it per property)"; fi
 mods=$(python3 - <<'PY'
